@@ -344,6 +344,14 @@ class ListNode(SequenceNode[Tuple[T, ...]], Generic[T]):
     def to_obj(self):
         return [n.to_obj() for n in self]
 
+    def __lt__(self, other):
+        # A list can be the key of a mapping (built from a tuple), and the items of a mapping are sorted
+        if isinstance(other, ListNode):
+            return self._children < other._children
+        elif isinstance(other, LeafNode):
+            other = other.object
+        return LeafNode._mixed_type_sort_key(self) < LeafNode._mixed_type_sort_key(other)
+
     @property
     def container_type(self) -> Type[Tuple[T, ...]]:
         """The container type required by :class:`graphtage.sequences.SequenceNode`
